@@ -63,6 +63,36 @@ func main() {
 		fmt.Fprintf(wo, "lines %s\n", b)
 		fmt.Fprintf(wi, "%d %d [%s]\n", cl, len(runes), strings.Join(lens, ", "))
 	}
+	// whitespace-ignore: stripWhitespace against the model, and its line count against CountLines of the raw data
+	wsAlphabet := []byte{' ', ' ', '\n', 'a', 'b', '\r', ' '}
+	for it := 0; it < hvCount; it++ {
+		n := rng.Intn(9)
+		data := make([]byte, n)
+		for i := range data {
+			data[i] = wsAlphabet[rng.Intn(len(wsAlphabet))]
+		}
+		var bs []string
+		for _, c := range data {
+			bs = append(bs, fmt.Sprint(int(c)))
+		}
+		b := strings.Join(bs, ",")
+		if b == "" {
+			b = "-"
+		}
+		stripped := items.VerifStripWhitespace(string(data))
+		cs, _ := (&items.CachedBlob{Data: []byte(stripped)}).CountLines()
+		cr, _ := (&items.CachedBlob{Data: data}).CountLines()
+		if cs != cr {
+			hv.Fail("strip-line-count", fmt.Sprintf(`{"bytes":%q}`, b),
+				fmt.Sprintf("%d lines after removing the spaces, %d before", cs, cr))
+		}
+		var out []string
+		for _, c := range []byte(stripped) {
+			out = append(out, fmt.Sprint(int(c)))
+		}
+		fmt.Fprintf(wo, "strip %s\n", b)
+		fmt.Fprintf(wi, "[%s] %d\n", strings.Join(out, ", "), cs)
+	}
 	// line stats
 	lsc := &items.LinesStatsCalculator{}
 	lsc.Initialize(nil)
